@@ -10,7 +10,10 @@ package main
 //     schemes through auth.LoadAuthSchemes from htpasswd files) with routes that
 //     carry allow=/deny= lists and auth= names; raw clients connect from
 //     generated peer addresses (IPv4, IPv6, IPv4-mapped, zone-scoped
-//     link-local) and send X-Forwarded-For chains and Authorization headers.
+//     link-local) and send X-Forwarded-For chains and Authorization headers;
+//     the Authorization headers of a run form one ordered history of attempts
+//     per scheme instance (c12Hist): logins, then variants of what has logged
+//     in, then logins again, on the same and on new connections.
 //   - TCP: tcp.Server with tcp.Proxy / tcp.SNIProxy / tcp.DynamicProxy wired
 //     with main.lookupHostFn, one listener per route; raw clients (a genuine
 //     ClientHello for SNI) and greeting upstreams.
@@ -231,17 +234,22 @@ func c12BasicCreds(h string) (user, pw string, ok bool) {
 	return strings.Cut(string(raw), ":")
 }
 
-// the credential stores behind the two defined schemes (user -> clear-text password)
-var c12Users = map[string]map[string]string{
-	"basic1": {"alice": "wonderland", "bob": "builder", "carol": "s3cret:colon", "dave": "hunter2"},
-	"basic2": {"erin": "pw2", "alice": "other-pw"},
+type c12Pair struct{ User, Pw string }
+
+// the credential stores behind the two defined schemes: the htpasswd entries in file
+// order, with the clear-text password (c12WriteHtpasswd writes the files)
+var c12Valid = map[string][]c12Pair{
+	"basic1": {{"alice", "wonderland"}, {"bob", "builder"}, {"carol", "s3cret:colon"}, {"dave", "hunter2"}},
+	"basic2": {{"erin", "pw2"}, {"alice", "other-pw"}},
 }
 
+// c12Auth is stateless on purpose: whatever was presented to the scheme before, a
+// pair is accepted iff it is exactly one of the scheme's htpasswd entries.
 func c12Auth(scheme string, authz []string) (verdict, why string) {
 	if scheme == "" {
 		return c12Admit, ""
 	}
-	users, defined := c12Users[scheme]
+	entries, defined := c12Valid[scheme]
 	if !defined {
 		return c12Reject, "unknown-scheme"
 	}
@@ -252,8 +260,10 @@ func c12Auth(scheme string, authz []string) (verdict, why string) {
 	if !ok {
 		return c12Reject, "credentials"
 	}
-	if want, known := users[user]; known && want == pw {
-		return c12Admit, ""
+	for _, e := range entries {
+		if e.User == user && e.Pw == pw {
+			return c12Admit, ""
+		}
 	}
 	return c12Reject, "credentials"
 }
@@ -293,8 +303,12 @@ type c12Expect struct {
 	ID      string `json:"id"`
 	Verdict string `json:"reference"`
 	Why     string `json:"why,omitempty"`
+	Attempt string `json:"credentials,omitempty"` // how the generator derived the Authorization header (not used by the oracle)
 	key     string
 	proto   string
+	// for the reach counters only
+	authVerdict string
+	ordered     bool // derived from a pair that logged in earlier on the same client (strictly earlier in time)
 }
 
 type c12Scenario struct {
@@ -439,35 +453,185 @@ func c12HostPort(a netip.Addr, port int) string {
 var c12XFFNames = []string{"X-Forwarded-For", "x-forwarded-for", "X-FORWARDED-FOR"}
 var c12Seps = []string{", ", ",", " , ", ",\t"}
 
-func c12GenAuthz(g *simcore.Tape, scheme string) []h2Header {
-	b64 := func(s string) string { return base64.StdEncoding.EncodeToString([]byte(s)) }
-	own, other := "basic1", "basic2"
-	if scheme == "basic2" {
-		own, other = "basic2", "basic1"
+// c12Hist is the ordered history of credential attempts the generator has presented
+// to one scheme instance (one instance per scheme name and run, shared by all routes
+// and connections). Attempts are derived from it so that whatever the auth layer
+// remembers between requests is exercised: a pair that has logged in before comes
+// back re-split, extended, truncated, re-cased, padded, crossed with another entry,
+// without a header at all, at the other scheme, and verbatim; variants also come
+// before any login and valid pairs again after refused ones. The requests of one
+// client are strictly ordered in time (a client waits for each response); the order
+// between clients is the driver's.
+type c12Hist struct {
+	scheme string
+	logins []c12Login // valid pairs presented so far, in generation order
+	tried  []string   // every Authorization value presented so far
+}
+
+type c12Login struct {
+	c12Pair
+	client int
+}
+
+var c12AttemptFresh = []string{"valid", "valid", "valid", "resplit", "near", "cross", "other-scheme", "wrong", "none", "malformed", "lower-case-basic", "repeat"}
+var c12AttemptAfter = []string{"valid", "resplit", "near", "cross", "resplit", "near", "valid", "other-scheme", "wrong", "none", "malformed", "lower-case-basic", "repeat", "cross"}
+
+func c12Upper1(s string) string {
+	if s == "" {
+		return s
 	}
-	valid := map[string][]string{"basic1": {"alice:wonderland", "bob:builder", "carol:s3cret:colon", "dave:hunter2"}, "basic2": {"erin:pw2", "alice:other-pw"}}
-	var v string
-	switch g.Intn(11) {
+	return strings.ToUpper(s[:1]) + s[1:]
+}
+
+func c12Chop(s string) string {
+	if s == "" {
+		return s
+	}
+	return s[:len(s)-1]
+}
+
+// c12Resplit moves the boundary between user name and password: same concatenation,
+// another pair.
+func c12Resplit(g *simcore.Tape, b c12Pair) c12Pair {
+	s := b.User + b.Pw
+	k := len(b.User)
+	if g.Bool() {
+		k = g.Range(0, len(s)-1) // any other position, both ends included
+		if k >= len(b.User) {
+			k++
+		}
+	} else {
+		k += simcore.Pick(g, []int{1, -1, 2, -2, 3})
+	}
+	if k < 0 {
+		k = 0
+	}
+	if k > len(s) {
+		k = len(s)
+	}
+	return c12Pair{s[:k], s[k:]}
+}
+
+func c12Near(g *simcore.Tape, b c12Pair) c12Pair {
+	u, p := b.User, b.Pw
+	switch g.Intn(18) {
 	case 0:
-		return nil
-	case 1, 2, 3:
-		v = "Basic " + b64(simcore.Pick(g, valid[own]))
+		return c12Pair{u, p + "1"}
+	case 1:
+		return c12Pair{u, c12Chop(p)}
+	case 2:
+		return c12Pair{u + " ", p}
+	case 3:
+		return c12Pair{" " + u, p}
 	case 4:
-		v = "Basic " + b64(simcore.Pick(g, []string{"alice:wrong", "bob:Builder", "carol:s3cret", "erin:pw", "dave:hunter22"}))
+		return c12Pair{strings.ToUpper(u), p}
 	case 5:
-		v = "Basic " + b64(simcore.Pick(g, []string{"mallory:wonderland", "Alice:wonderland", ":wonderland", "alice :wonderland"}))
+		return c12Pair{c12Upper1(u), p}
 	case 6:
-		v = "Basic " + b64(simcore.Pick(g, valid[other]))
+		return c12Pair{u, strings.ToUpper(p)}
 	case 7:
-		v = "Basic " + b64(simcore.Pick(g, []string{"alice:", "alice", "erin:"}))
+		return c12Pair{u, "x" + p}
 	case 8:
-		v = simcore.Pick(g, []string{"Basic !!!", "Basic", "Bearer abc.def.ghi", "Digest username=\"alice\""})
+		return c12Pair{u, p + " "}
 	case 9:
-		v = simcore.Pick(g, []string{"basic ", "BASIC "}) + b64(simcore.Pick(g, valid[own]))
+		return c12Pair{c12Chop(u), p}
 	case 10:
-		v = "Basic " + b64("alice:"+simcore.Pick(g, []string{"other-pw", "wonderland"}))
+		return c12Pair{u + "x", p}
+	case 11:
+		return c12Pair{u, ""}
+	case 12:
+		return c12Pair{"", p}
+	case 13:
+		return c12Pair{p, u}
+	case 14:
+		return c12Pair{u, p + p}
+	case 15:
+		return c12Pair{u, u}
+	case 16:
+		return c12Pair{u + "\t", p}
+	default:
+		return c12Pair{u, " " + p}
 	}
-	return []h2Header{{simcore.Pick(g, []string{"Authorization", "authorization"}), v}}
+}
+
+// next produces the Authorization header of the next request that client sends to a
+// route naming the scheme; record says whether the scheme instance exists (attempts at
+// routes with an undefined or no scheme name reach no instance and leave no history).
+func (h *c12Hist) next(g *simcore.Tape, other *c12Hist, client int, record bool) (hdr []h2Header, attempt string, ordered bool) {
+	b64 := func(s string) string { return base64.StdEncoding.EncodeToString([]byte(s)) }
+	own := c12Valid[h.scheme]
+	// the pair a variant is derived from: preferably one that has logged in before
+	after := false
+	base := func(hh *c12Hist) c12Pair {
+		if len(hh.logins) > 0 && !g.Chance(20) {
+			l := simcore.Pick(g, hh.logins)
+			after = true
+			ordered = ordered || l.client == client
+			return l.c12Pair
+		}
+		return simcore.Pick(g, c12Valid[hh.scheme])
+	}
+	kinds := c12AttemptFresh
+	if len(h.logins) > 0 {
+		kinds = c12AttemptAfter
+	}
+	kind := simcore.Pick(g, kinds)
+	var v string
+	pair := func(p c12Pair) string { return "Basic " + b64(p.User+":"+p.Pw) }
+	switch kind {
+	case "valid":
+		v = pair(simcore.Pick(g, own))
+	case "resplit":
+		v = pair(c12Resplit(g, base(h)))
+	case "near":
+		v = pair(c12Near(g, base(h)))
+	case "cross":
+		// a valid user with another entry's password, or another entry's user with a valid password
+		b := base(h)
+		o := simcore.Pick(g, own)
+		if o.User == b.User {
+			o = simcore.Pick(g, c12Valid[other.scheme])
+		}
+		if g.Bool() {
+			v = pair(c12Pair{o.User, b.Pw})
+		} else {
+			v = pair(c12Pair{b.User, o.Pw})
+		}
+	case "other-scheme":
+		v = pair(base(other))
+	case "wrong":
+		v = "Basic " + b64(simcore.Pick(g, []string{"alice:wrong", "bob:Builder", "carol:s3cret", "erin:pw", "dave:hunter22", "mallory:wonderland", "Alice:wonderland", ":wonderland", "alice :wonderland", "alice:", "alice", "erin:", "alice:other-pw", "alice:wonderland"}))
+	case "none":
+	case "malformed":
+		v = simcore.Pick(g, []string{"Basic !!!", "Basic", "Bearer abc.def.ghi", "Digest username=\"alice\"", "Basic  ", "Basic Og=="})
+	case "lower-case-basic":
+		v = simcore.Pick(g, []string{"basic ", "BASIC "}) + b64(func() string { p := simcore.Pick(g, own); return p.User + ":" + p.Pw }())
+	case "repeat":
+		if len(h.tried) > 0 {
+			v = simcore.Pick(g, h.tried)
+			after = len(h.logins) > 0
+		} else {
+			v = pair(simcore.Pick(g, own))
+		}
+	}
+	attempt = kind
+	if after {
+		attempt += " of a pair that logged in before"
+		if ordered {
+			attempt += " on this client"
+		}
+	}
+	if kind == "none" {
+		return nil, attempt, ordered
+	}
+	if record {
+		h.tried = append(h.tried, v)
+		if verdict, _ := c12Auth(h.scheme, []string{v}); verdict == c12Admit {
+			u, p, _ := c12BasicCreds(v)
+			h.logins = append(h.logins, c12Login{c12Pair{u, p}, client})
+		}
+	}
+	return []h2Header{{simcore.Pick(g, []string{"Authorization", "authorization"}), v}}, attempt, ordered
 }
 
 func c12Gen(g *simcore.Tape, thorough bool) *c12Scenario {
@@ -503,17 +667,31 @@ func c12Gen(g *simcore.Tape, thorough bool) *c12Scenario {
 	}
 	id := 0
 	if len(httpRoutes) > 0 {
+		hist := map[string]*c12Hist{"basic1": {scheme: "basic1"}, "basic2": {scheme: "basic2"}}
+		maxSess := 6
+		if thorough {
+			maxSess = 10
+		}
 		nc := g.Range(1, maxCl)
 		for c := 0; c < nc; c++ {
 			focus := simcore.Pick(g, httpRoutes)
+			// a credential session: a longer ordered history of attempts at the focus route's scheme
+			// instance from an address the rules do not refuse, on one or several connections
+			session := false
+			if _, defined := c12Valid[sc.Routes[focus].Auth]; defined {
+				session = g.Chance(60)
+			}
 			var peer netip.Addr
-			if g.Chance(70) {
+			if session || g.Chance(70) {
 				peer = c12Admitted(g, &sc.Routes[focus])
 			} else {
 				peer = c12Addr(g, &sc.Routes[focus])
 			}
 			cl := h2Client{Addr: c12HostPort(peer, 5000+100*c)}
 			n := g.Range(1, 3)
+			if session {
+				n = g.Range(2, maxSess)
+			}
 			for k := 0; k < n; k++ {
 				ri := focus
 				if g.Chance(25) {
@@ -523,9 +701,13 @@ func c12Gen(g *simcore.Tape, thorough bool) *c12Scenario {
 				rq := h2Req{ID: fmt.Sprintf("r%d", id), Route: ri, Method: simcore.Pick(g, []string{"GET", "GET", "POST", "HEAD", "DELETE"}), Path: rt.Src + simcore.Pick(g, []string{"", "/", "/a/b"}), Host: "fabio.sim"}
 				id++
 				rq.Headers = []h2Header{{"Accept-Encoding", "identity"}}
-				// X-Forwarded-For: 0-2 header lines of 1-3 elements
+				// X-Forwarded-For: 0-2 header lines of 1-3 elements (a session mostly sends none)
 				var lines []string
-				for l, nl := 0, simcore.Pick(g, []int{0, 1, 2, 1, 2, 0}); l < nl; l++ {
+				nl := simcore.Pick(g, []int{0, 1, 2, 1, 2, 0})
+				if session && g.Chance(75) {
+					nl = 0
+				}
+				for l := 0; l < nl; l++ {
 					var els []string
 					for x, nx := 0, g.Range(1, 3); x < nx; x++ {
 						switch v := g.Intn(20); {
@@ -543,8 +725,21 @@ func c12Gen(g *simcore.Tape, thorough bool) *c12Scenario {
 					lines = append(lines, line)
 					rq.Headers = append(rq.Headers, h2Header{simcore.Pick(g, c12XFFNames), line})
 				}
-				authz := c12GenAuthz(g, rt.Auth)
+				// credentials come from the history of the scheme the route names (routes with an
+				// undefined or no name present basic1's attempts, which reach no scheme instance)
+				own, other := hist["basic1"], hist["basic2"]
+				_, defined := c12Valid[rt.Auth]
+				if rt.Auth == "basic2" {
+					own, other = other, own
+				}
+				authz, attempt, ordered := own.next(g, other, c, defined)
 				rq.Headers = append(rq.Headers, authz...)
+				if session && k < n-1 && rq.Method != "POST" && g.Chance(20) {
+					// the next attempt of the session arrives on a new connection (asked for on requests
+					// without a body only: when a refused upload also asks to close, net/http closes with
+					// the body unread and the reset may overtake the answer, which is TCP and not the gate)
+					rq.Headers = append(rq.Headers, h2Header{"Connection", "close"})
+				}
 				if rq.Method == "POST" {
 					rq.Body = g.Bytes(g.Range(0, 3000))
 					rq.Chunked = len(rq.Body) > 0 && g.Chance(30)
@@ -565,7 +760,12 @@ func c12Gen(g *simcore.Tape, thorough bool) *c12Scenario {
 				v1, w1 := rt.ref.access(peer, lines)
 				v2, w2 := c12Auth(rt.Auth, av)
 				v, w := c12Combine(v1, w1, v2, w2)
-				sc.Expect = append(sc.Expect, c12Expect{ID: rq.ID, Verdict: v, Why: w, key: rt.Key, proto: "http"})
+				ex := c12Expect{ID: rq.ID, Verdict: v, Why: w, key: rt.Key, proto: "http"}
+				if rt.Auth != "" {
+					ex.Attempt = attempt
+					ex.authVerdict, ex.ordered = v2, ordered && defined
+				}
+				sc.Expect = append(sc.Expect, ex)
 			}
 			sc.Clients = append(sc.Clients, cl)
 		}
@@ -838,6 +1038,13 @@ func runC12(r *simcore.Run) {
 		default:
 			r.Probe("ref_either_" + ex.proto)
 		}
+		if ex.Attempt != "" {
+			kind, _, _ := strings.Cut(ex.Attempt, " ")
+			r.Probe("cred_" + kind + "_ref_" + ex.authVerdict)
+			if ex.ordered {
+				r.Probe("cred_after_login_on_same_client_ref_" + ex.authVerdict)
+			}
+		}
 	}
 	for ci := range sc.Clients {
 		for qi := range sc.Clients[ci].Reqs {
@@ -947,6 +1154,15 @@ func c12TCPClient(e *h2Env, st *c12State, sc *c12Scenario, cn *c12Conn) {
 	}()
 }
 
+func c12AuthzOf(rq *h2Req) string {
+	for _, h := range rq.Headers {
+		if strings.EqualFold(h.K, "Authorization") {
+			return h.V
+		}
+	}
+	return ""
+}
+
 func c12CheckHTTP(r *simcore.Run, e *h2Env, sc *c12Scenario, cl *h2Client, rq *h2Req, expect map[string]*c12Expect) {
 	ex := expect[rq.ID]
 	rt := &sc.Routes[rq.Route]
@@ -957,6 +1173,13 @@ func c12CheckHTTP(r *simcore.Run, e *h2Env, sc *c12Scenario, cl *h2Client, rq *h
 		return
 	}
 	what := fmt.Sprintf("%s %s (id %s) from %s via route %s allow=%q deny=%q auth=%q headers %v", rq.Method, rq.Path, rq.ID, cl.Addr, rt.Src, rt.Allow, rt.Deny, rt.Auth, rq.Headers[1:])
+	if ex.Attempt != "" {
+		if u, p, ok := c12BasicCreds(c12AuthzOf(rq)); ok {
+			what += fmt.Sprintf(" [credentials %q / %q: %s]", u, p, ex.Attempt)
+		} else {
+			what += " [credentials: " + ex.Attempt + "]"
+		}
+	}
 	refused := res.Err == nil && (res.Status == 403 || res.Status == 401)
 	forwarded := len(seen) > 0
 	r.Tracef("http %s ref=%s/%s status=%d err=%v forwarded=%d", rq.ID, ex.Verdict, ex.Why, res.Status, res.Err != nil, len(seen))
